@@ -28,7 +28,7 @@ fn assumptions(prop: &str) -> Vec<&'static str> {
         "there is no clock, timer or network in tau-engine: 'simulated time' is reported as logical steps (document call-backs), not seconds",
     ];
     match prop {
-        "C01" => v.push("verdict differences whose attribution signature (oracle | lens class : minimal switch subset) is listed as status=known in /verif/known_findings.json are reported as KNOWN-FINDING, everything else as VIOLATION"),
+        "C01" => v.push("verdict differences whose key (oracle | lens class : pass, and '=ref': the frozen reference build sim/ref shows exactly the same unoptimised/optimised verdict pair) is listed as status=known in /verif/known_findings.json are reported as KNOWN-FINDING, everything else - including any difference the reference build does not have - as VIOLATION"),
         "C12" => v.push("threads are scheduled only at document call-backs (the engine has no synchronisation points of its own); preemption inside engine code is covered by the Miri tier of the thorough command"),
         _ => {}
     }
